@@ -80,6 +80,9 @@ type WorldOpts struct {
 	Binary         bool   // run the built service binary (cmd/main.go) as a child process and talk gRPC to it
 	// DiscoveryExplicit (with Discovery): the endpoints are spelled out as well and the keys come from jwks_fetcher
 	DiscoveryExplicit bool
+	// RawKeyProvider: the service gets the real key provider itself, not the fault-injecting wrapper around it (the
+	// wrapper hides any further interface the provider implements)
+	RawKeyProvider bool
 	// JwksFetchSec > 0 (without Discovery): keys come from jwks_fetcher at the provider's JWKS endpoint, refreshed at
 	// this interval by the real key provider
 	JwksFetchSec int
@@ -307,14 +310,14 @@ func NewWorld(c *Case, o WorldOpts) *World {
 		}
 		fac := oidc.NewSessionStoreFactory(full)
 		w.Factory = fac
-		w.Filter = server.NewExtAuthZFilter(full, w.TLS, w.JWKS, fac)
+		w.Filter = server.NewExtAuthZFilter(full, w.TLS, w.keySource(prov), fac)
 		fill()
 		startProv()
 		if err := fac.PreRun(); err != nil {
 			panic(err)
 		}
 	} else if o.ViaServer {
-		w.Filter = server.NewExtAuthZFilter(full, w.TLS, w.JWKS, FixedFactory{w.Store})
+		w.Filter = server.NewExtAuthZFilter(full, w.TLS, w.keySource(prov), FixedFactory{w.Store})
 		fill()
 		startProv()
 	} else {
@@ -322,6 +325,14 @@ func NewWorld(c *Case, o WorldOpts) *World {
 		startProv()
 	}
 	return w
+}
+
+// keySource is what the assembled filter is given as its key provider.
+func (w *World) keySource(prov *oidc.DefaultJWKSProvider) oidc.JWKSProvider {
+	if w.Opts.RawKeyProvider {
+		return prov
+	}
+	return w.JWKS
 }
 
 // SetStaticJWKS re-publishes the provider's current key set into the filter's static JWKS (or leaves
